@@ -17,11 +17,11 @@ EXTENDS FlowGraphI
 
 CONSTANTS
     Configs,               \* set of configurations explored
-    StopAfterAnswer,       \* TRUE (repaired): once a branch answered the request no further edge of any caller is followed
-                           \* FALSE: sibling edges are still iterated and overwrite the short-circuit node
-    ResumeAllEdges,        \* TRUE (repaired): the response walk resumes at every connection of the answering processor,
+    StopAfterAnswer,       \* TRUE (the code since 8834928): once a branch answered the request no further edge of any caller is followed
+                           \* FALSE (before): sibling edges are still iterated and overwrite the short-circuit node
+    ResumeAllEdges,        \* TRUE (since 8932fc2): the response walk resumes at every connection of the answering processor,
                            \*                  also when the response direction has no stream entry point
-                           \* FALSE: only at edges[0]; skipped for a rootless response direction; from the root when no edge
+                           \* FALSE (before): only at edges[0]; skipped for a rootless response direction; from the root when no edge
     StepCap                \* exploration cap on processor executions (> every Bound)
 
 VARIABLES
@@ -118,7 +118,7 @@ WalkOver ==
             LET r == b.res
                 es == EdgesOf(r, sc)
                 targets == IF ResumeAllEdges
-                           THEN SelectSeq(es, LAMBDA e : e.t # "" /\ e.c = "")
+                           THEN SelectSeq(es, LAMBDA e : e.t # "")
                            ELSE IF Len(es) = 0 THEN <<[from |-> "", c |-> "", t |-> r.root]>>
                            ELSE IF es[1].t = "" THEN <<>> ELSE <<es[1]>>
             IN /\ sdir' = "res"
